@@ -533,7 +533,7 @@ def clause_g(facts, rep, nss):
 
 def run(rep, tier):
     # the SSE kernel is arch-specific source: it is analysed in the quick tier as well (cheap)
-    configs = [('K1', ('::avx2::',)), ('K3', ('::sse::',))] if tier == 'quick' else [('K1', ('::avx2::',)), ('K3', ('::sse::',)), ('K4', ('::avx2::', '::sse::'))]
+    configs = [('K1', ('::avx2::',)), ('K3', ('::sse::',)), ('K4', ('::avx2::', '::sse::'))]
     for cfg, nss in configs:
         facts = get_facts(cfg)
         rep.unit(facts)
